@@ -33,6 +33,17 @@
 (*             agreement is evaluated over the REAL verdicts; this is where the   *)
 (*             threshold arithmetic separates (n-k)*t/100 from n-k and k<=f from  *)
 (*             k>f (n=5: f=1, n=7: f=2, n=10: f=3), which n<=4 cannot.            *)
+(*             The same runs also emit validation HISTORIES (variable hist): the  *)
+(*             sequences of voteproofs handed, in this order, to ONE long-lived   *)
+(*             validator (one process). By the statement the verdict on a         *)
+(*             voteproof is Accepted of that voteproof alone - it must not depend *)
+(*             on what was validated before (Verdict, HistoryIndependent) - and   *)
+(*             no voteproof with a sign fact its node did not make for that fact  *)
+(*             at that stage point may ever be accepted (AcceptedOnlyGenuine).    *)
+(*             The histories pair a genuine voteproof with the voteproof forged   *)
+(*             from its signatures (signature-transplant mutations tp-*: the sign *)
+(*             of node v for fact X attached to fact Y, to the fact of another    *)
+(*             stage point, to another node), genuine first and forged first.     *)
 (* Tally!Result / Tally!Req are the C01/C02 definitions (instantiated).           *)
 EXTENDS Integers, FiniteSets, Sequences, TLC, Json
 
@@ -54,13 +65,21 @@ F == (N * 1000 - N * T10) \div 1000                  \* floor(n - n*t/100), exac
 VARIABLES c,      \* "cands": the candidate
           byz,    \* "agree"/"closed": Byzantine nodes
           sg,     \* "agree"/"closed": Node -> SUBSET {"A","B"}, the facts each node signed
+          hist,   \* "orbits": the sequence of candidates validated so far by one long-lived validator
           phase,  \* "start": only the partition key is chosen (cheap initial states); "go": the state proper,
                   \* produced by Next so that the expensive evaluation is spread over TLC's workers
           step
-vars == <<c, byz, sg, phase, step>>
+vars == <<c, byz, sg, hist, phase, step>>
 
 ---------------------------------------------------------------------------------
 (* candidates *)
+(* signature transplants: the sign fact carries a signature its node really made, but for something else *)
+(*   tp-fact-*   for the OTHER fact ("A" <-> "B") of the same stage point                                *)
+(*   tp-point-*  for the other fact of ANOTHER stage point                                               *)
+(*   tp-node-one the signature bytes another voter made for this fact, under this node's name and key    *)
+(* -all: every sign fact of the voteproof; -one: only the first voter's                                  *)
+TransplantMuts == {"tp-fact-all", "tp-fact-one", "tp-point-all", "tp-point-one", "tp-node-one"}
+ForgedMuts == TransplantMuts \cup {"wrongkey", "badsig"}
 ExpelMuts == {"expel-unknown-target", "expel-unknown-signer", "expel-wrongkey-signer", "expired", "dup-expel"}
 
 (* NewSuffrageWithExpels: per-expel sign threshold *)
@@ -91,7 +110,7 @@ K(cd) == Cardinality(cd.ex)
 V1NonEmpty(cd)     == Voters(cd) # {}
 V2NoDupSigner(cd)  == cd.mut # "dup"
 V3MajorityInSignFacts(cd) == cd.claim = "DRAW" \/ (cd.mut # "claim-missing" /\ \E v \in Node : cd.votes[v] = cd.claim)
-V4SignaturesVerify(cd) == cd.mut # "badsig"
+V4SignaturesVerify(cd) == cd.mut \notin ({"badsig"} \cup TransplantMuts)
 V5KindShape(cd)    == (cd.kind = "plain") = (cd.ex = {})
 V6ExpelOpsValid(cd) == \A e \in cd.ex : ExpelSigners(cd.fam, cd.ex, e) # {}    \* "empty signs"
 V7NoDupExpel(cd)   == cd.mut # "dup-expel"
@@ -150,7 +169,7 @@ Applicable(b, m) == /\ m # "none"
                     /\ b.kind # "stuck"
                     /\ (m \in ExpelMuts => b.ex # {})
                     /\ (m = "claim-missing" => b.claim # "DRAW")
-                    /\ (m \in {"dup", "wrongkey", "badsig"} => \E v \in Node : b.votes[v] # NoVote)
+                    /\ (m \in {"dup", "wrongkey", "badsig"} \cup TransplantMuts => \E v \in Node : b.votes[v] # NoVote)
 CandsOf(fams, muts, vv) ==
   UNION {{With(b, "none", "INIT")}
          \cup (IF Near(With(b, "none", "INIT"))
@@ -175,6 +194,36 @@ OrbitsOf(fams, k) ==
   LET ff == IF k = 0 THEN {CHOOSE f \in fams : TRUE} ELSE fams
       init == {OrbitCand(X, k, ab[1], ab[2], fam, "INIT") : X \in {"A", "B"}, ab \in Profiles, fam \in ff}
   IN init \cup {[o EXCEPT !.stage = "ACCEPT"] : o \in {x \in init : Near(x)}}
+
+(* ---- validation histories ("orbits" mode) ---- *)
+(* every sign fact of cd was made by its node, with its key, for its fact at its stage point *)
+Genuine(cd) == cd.mut \notin ForgedMuts
+(* the i-th verdict of a validator that is handed h[1], h[2], ... in this order: by the statement a function *)
+(* of h[i] alone                                                                                            *)
+Verdict(h, i) == Accepted(h[i])
+At(cd, p) == cd @@ ("pt" :> p)          \* p = 0: the stage point, p = 1: another stage point
+(* the voteproof forged from the genuine g (claims "A"): the same nodes "vote" "B", signatures by mutation m *)
+ForgedFrom(g, m) == [g EXCEPT !.votes = [v \in Node |-> IF g.votes[v] = "A" THEN "B" ELSE NoVote],
+                             !.claim = "B", !.mut = m]
+HistBases(k) == {OrbitCand("A", k, a, 0, "all", st) : a \in 1..(N - k), st \in {"INIT", "ACCEPT"}}
+HistoriesOf(k) ==
+  UNION {    {<<At(g, 0), At(ForgedFrom(g, m), 0)>> : m \in {"tp-fact-all", "tp-fact-one"}}         \* genuine first
+       \cup {<<At(ForgedFrom(g, m), 0), At(g, 0)>> : m \in {"tp-fact-all", "tp-fact-one"}}         \* forged first
+       \cup {<<At(g, 1), At(ForgedFrom(g, m), 0), At(g, 0)>> : m \in {"tp-point-all", "tp-point-one"}}
+       \cup {<<At(ForgedFrom(g, m), 0), At(g, 1), At(g, 0)>> : m \in {"tp-point-all", "tp-point-one"}}
+       \cup {<<At(ForgedFrom(g, "tp-node-one"), 0), At(ForgedFrom(g, "tp-node-one"), 0)>>}          \* the donor's sign is seen first
+       \cup {<<At(g, 0), At(g, 0)>>}                                                               \* the same voteproof again
+       : g \in HistBases(k)}
+OutCand(cd) == [votes |-> [i \in 1..N |-> cd.votes[i]],
+                ex |-> [i \in 1..N |-> IF i \in cd.ex THEN 1 ELSE 0],
+                signers |-> [i \in 1..N |-> IF i \in cd.ex
+                                THEN [j \in 1..N |-> IF j \in ExpelSigners(cd.fam, cd.ex, i) THEN 1 ELSE 0]
+                                ELSE [j \in 1..N |-> 0]],
+                fam |-> cd.fam, kind |-> cd.kind, claim |-> cd.claim, mut |-> cd.mut, stage |-> cd.stage, pt |-> cd.pt]
+OutH == ToJson([n |-> N, t10 |-> T10, f |-> F,
+                hist |-> [i \in 1..Len(hist) |-> OutCand(hist[i])],
+                accepted |-> [i \in 1..Len(hist) |-> Verdict(hist, i)],
+                why |-> [i \in 1..Len(hist) |-> Why(hist[i])]])
 
 OutC == ToJson([n |-> N, t10 |-> T10, f |-> F,
                 votes |-> [i \in 1..N |-> c.votes[i]],
@@ -229,26 +278,36 @@ OrbitOverlapMinimal == Go => \A E1 \in SUBSET Node, E2 \in SUBSET Node :
 Dummy == [votes |-> [v \in Node |-> NoVote], ex |-> {}, fam |-> "all", kind |-> "plain", claim |-> "DRAW",
           mut |-> "none", stage |-> "INIT"]
 InitCands == /\ \E vv \in [Node -> {NoVote, "A", "B"}] : c = [Dummy EXCEPT !.votes = vv]
-             /\ byz = {} /\ sg = [v \in Node |-> {}] /\ phase = "start" /\ step = ""
+             /\ byz = {} /\ sg = [v \in Node |-> {}] /\ hist = <<>> /\ phase = "start" /\ step = ""
 NextCands == /\ phase = "start" /\ phase' = "go"
              /\ c' \in CandsOf(Fams, Muts, c.votes)
-             /\ UNCHANGED <<byz, sg>>
+             /\ UNCHANGED <<byz, sg, hist>>
              /\ step' = OutC'
-InitAgree == /\ c = Dummy /\ step = "" /\ phase = "start"
+InitAgree == /\ c = Dummy /\ step = "" /\ phase = "start" /\ hist = <<>>
              /\ byz \in {B \in SUBSET Node : Cardinality(B) <= F}
              /\ sg \in [Node -> SUBSET {"A", "B"}]
              /\ \A v \in Node \ byz : Cardinality(sg[v]) <= 1      \* honest: at most one fact per stage point
-NextAgree == phase = "start" /\ phase' = "go" /\ UNCHANGED <<c, byz, sg, step>>
+NextAgree == phase = "start" /\ phase' = "go" /\ UNCHANGED <<c, byz, sg, hist, step>>
 (* "orbits": the cheap initial states choose the number of expelled nodes *)
 InitOrbits == /\ \E k \in 0..(N - 1) : c = [Dummy EXCEPT !.ex = (N - k + 1)..N]
-              /\ byz = {} /\ sg = [v \in Node |-> {}] /\ phase = "start" /\ step = ""
+              /\ byz = {} /\ sg = [v \in Node |-> {}] /\ hist = <<>> /\ phase = "start" /\ step = ""
 NextOrbits == /\ phase = "start" /\ phase' = "go"
               /\ c' \in OrbitsOf(Fams, Cardinality(c.ex))
-              /\ UNCHANGED <<byz, sg>>
+              /\ UNCHANGED <<byz, sg, hist>>
               /\ step' = OutC'
+(* one long-lived validator is handed a whole history *)
+ValidateHistory == /\ phase = "start" /\ phase' = "hist"
+                   /\ hist' \in HistoriesOf(Cardinality(c.ex))
+                   /\ UNCHANGED <<c, byz, sg>>
+                   /\ step' = OutH'
 Init == CASE Mode = "cands" -> InitCands [] Mode = "orbits" -> InitOrbits [] OTHER -> InitAgree
-Next == CASE Mode = "cands" -> NextCands [] Mode = "orbits" -> NextOrbits [] OTHER -> NextAgree
+Next == CASE Mode = "cands" -> NextCands [] Mode = "orbits" -> (NextOrbits \/ ValidateHistory) [] OTHER -> NextAgree
 Spec == Init /\ [][Next]_vars
+(* the validator has no memory: whatever was validated before, the verdict is that of the voteproof alone, *)
+(* and a voteproof with a sign fact that is not its node's for its fact is never accepted                    *)
+HistoryIndependent == \A i \in 1..Len(hist) : Verdict(hist, i) = Accepted(hist[i])
+AcceptedOnlyGenuine == /\ \A i \in 1..Len(hist) : Verdict(hist, i) => Genuine(hist[i])
+                       /\ (Mode \in {"cands", "orbits"} /\ Go /\ Accepted(c)) => Genuine(c)
 (* sanity of the transcription on the candidates *)
 AcceptedImpliesWellFormed == (Mode \in {"cands", "orbits"} /\ Go) =>
    (Accepted(c) => /\ Voters(c) \cap c.ex = {}
